@@ -171,6 +171,16 @@ CLAIMS = {
         "separate interpreter with empty cache and new objects; 16 threads on disjoint objects vs sequential. Partial: GIL-granularity model of "
         "threads; numpy/LAPACK internals outside.",
    technique="Lean 4 invariant + refinement proof over all operation sequences / interleavings + exact trace correspondence"),
+ 'C18': dict(
+   text="Lean 4 theorems: limit_exact_on_polynomials (any field; if f(z0+h) = L + sum_{k<=order+1} a_k h^k is sampled at h0*rho^-t with at least "
+        "order+2 samples and distinct Richardson nodes - proved for real rho>1 and complex |rho|>1, i.e. radial and spiral paths, h0 of either "
+        "sign, real or complex z0 - every extrapolant of Limit's Richardson stage (step 1, order 1, order+1 terms) equals L); residue_fun "
+        "(fun(z0+dz)*dz^p = g(z0+dz) for f = g/(z-z0)^p, dz != 0) and residue_exact (default order p+2, g of degree <= p+3 -> g(z0)); "
+        "limit_keeps_finite_values / callLim_fills_in_order / callLim_all_some (only NaN entries are replaced, in order, finite values are "
+        "returned unchanged). Tie: the sequence and signed steps the real Limit hands to Richardson, its configuration and its output against "
+        "the exact Gaussian-rational model on polynomial data; the NaN-mask model on arrays mixing singular and regular points. Partial: "
+        "truncation for non-polynomial kernels, rounding, and the selection on complex data are explored by the search (g x kernels x paths).",
+   technique="Lean 4 proof (corollaries of the Richardson theorem, list frame lemma) + exact-rational correspondence + oracle search"),
 }
 
 checks = []
